@@ -115,15 +115,18 @@ def nameStep (line : String) : String :=
       let s3 := (s2.unregisterKey 0 "/zz" true).1
       "R " ++ String.intercalate "," (sortS ((s3.clients[0]?.map Client.namespaces).getD []))
   | ["cacc", ns, k] =>
-      -- a client in namespace ns registers k (WRITE), writes 7 by attribute, reads it back by attribute, by get() of the
-      -- absolute name, and statically
+      -- a client in namespace ns registers k (EXCLUSIVE_WRITE) and a deeper key k/s (so that k is also one of its
+      -- namespaces), writes 7 by attribute, reads it back by attribute, by get() of the absolute name and statically;
+      -- last field: Client.absolute_name(k)
       let s0 : BB := ({} : BB).newClient (d ns) |>.1
-      let r0 := s0.register 0 (d k) (some .write) false none
-      let r1 := r0.1.setattr 0 (d k) (.int 7)
+      let r0 := s0.register 0 (d k) (some .exclusive) false none
+      let r0b := r0.1.register 0 (d k ++ "/s") (some .write) false none
+      let r1 := r0b.1.setattr 0 (d k) (.int 7)
       let r2 := r1.1.getattr 0 (d k)
       let a := absNameS (clientNsS (d ns)) (d k)
       let r3 := r2.1.get 0 a
-      "R " ++ String.intercalate "|" [resStr r0.2, resStr r1.2, resStr r2.2, resStr r3.2, resStr (r3.1.sget a)]
+      let reg := match r3.1.isRegistered 0 (d k) none with | .bool true => a | _ => "KeyError"
+      "R " ++ String.intercalate "|" [resStr r0.2, resStr r1.2, resStr r2.2, resStr r3.2, resStr (r3.1.sget a), reg]
   | ["cshare", nsA, kA, nsB, kB] =>
       -- two clients: A writes 1 through kA, B writes 2 through kB, A reads: same location iff same absolute name
       let s0 : BB := ({} : BB).newClient (d nsA) |>.1
